@@ -10,6 +10,7 @@ mod dbx;
 mod engine;
 mod panics;
 mod props;
+mod qmodel;
 mod scratch;
 mod sqlmodel;
 mod workload;
